@@ -709,6 +709,18 @@ class C08(Prop):
         res = Result(rule="history = (contexts, publishers, receivers, steps of one main-lane operation racing with subscriber lanes, "
                           "scheduling policy) from the seeded PRNG; after each step: drain, table dump, probe publications; non-trivial = "
                           "at least one removal/connect/disconnect/stop step and one subscriber lane; distinct by (seed, history)")
+        # the name alphabet first (shared with C07): the tables are keyed by "<context>.<publisher>.<signal>" strings, the model
+        # by triples; the live is_valid_object_name must accept exactly what the model's validName accepts
+        from harness.props import c07 as C7
+        n_names, bad_names = C7.compare_name_alphabet(self.driver)
+        res.count("names_compared_with_validName", n_names)
+        if bad_names:
+            shown = ", ".join(f"{n!r}: live {lv} model {mv}" for (n, lv, mv) in bad_names[:6])
+            res.broken.append(Broken("correspondence", "PubSub.validName vs qmi.core.util.is_valid_object_name",
+                                     f"{len(bad_names)} of {n_names} names judged differently, e.g. {shown}",
+                                     case={"kind": "name-alphabet",
+                                           "accepted_chars": [ord(c) for c in C7.newly_accepted_chars(bad_names)]}))
+            return res
         n = ctx.scale(550, 5000)
         cases = [(ctx.rng.randrange(1 << 30), gen_spec(ctx.rng, not ctx.quick), None, False) for _ in range(n)]
         for i in range(0, len(cases), 50):
@@ -748,6 +760,14 @@ class C08(Prop):
     def search(self, ctx: Ctx, broken) -> Result:
         res = Result()
         for b in broken:
+            if b.case and b.case.get("kind") == "name-alphabet":
+                # sibling names `x` / `x<c>y`: the peer keeps its receiver on the longer name, the shorter one goes away
+                from harness.props import c07 as C7
+                C7.search_siblings(ctx, [chr(c) for c in b.case.get("accepted_chars", [])], res, prop="C08", sides=["remote"],
+                                   clause="subscriber-listens-but-publisher-does-not-transmit:name-metachar")
+                if res.failures:
+                    return res
+        for b in broken:
             if b.case and "spec" in b.case:
                 c = b.case
                 out, tr, viol = run_c08(c["seed"], c["spec"], change_points=c.get("change_points"), trace_handler=c.get("trace_handler", False))
@@ -784,6 +804,10 @@ class C08(Prop):
         return res
 
     def replay(self, ctx: Ctx, rp: dict):
+        if rp.get("kind") == "siblings":
+            from harness.props import c07 as C7
+            out, bad = C7.run_siblings(rp["seed"], chr(rp["ch"]), rp["where"], sides=rp.get("sides"), clause=rp["clause"])
+            return Failure(f"C08:{bad[0][0]}", bad[0][1], rp) if bad else None
         out, tr, viol = run_c08(rp["seed"], rp["spec"], change_points=rp.get("change_points"), trace_handler=rp.get("trace_handler", False))
         bad = verdict(out, viol)
         for (clause, detail) in bad:
